@@ -50,7 +50,11 @@ def digest(s: str) -> str:
 
 
 def module_state():
-    """Deep fingerprint of every module-level mutable container of the transpiler / toolchain modules."""
+    """Deep fingerprint of the module-level state of the transpiler / toolchain modules: every container (deep repr), every
+    plain value (numbers, strings, tuples - a rebound counter), and every other object whose repr shows its state rather
+    than its address (itertools.count, functools caches via cache_info(), compiled patterns)."""
+    import types
+
     import Reduino
     import Reduino.toolchain.pio as pio
     import Reduino.transpile.ast as rast
@@ -59,15 +63,37 @@ def module_state():
 
     h = hashlib.sha256()
     n = 0
+    skip_types = (types.ModuleType, type, types.FunctionType, types.BuiltinFunctionType, types.MethodType)
     for mod in (parser, emitter, rast, pio, Reduino):
         for name in sorted(vars(mod)):
             v = vars(mod)[name]
             # _VERIF_SKIPPED is the verification hook's own log (only written when REDUINO_VERIF=1)
-            if isinstance(v, (dict, list, set)) and not name.startswith("__") and not name.startswith("_VERIF"):
+            if name.startswith("__") or name.startswith("_VERIF"):
+                continue
+            if isinstance(v, types.FunctionType) or callable(v):
+                info = getattr(v, "cache_info", None)   # functools.lru_cache / cache wrappers carry state between calls
+                if info is not None:
+                    try:
+                        n += 1
+                        h.update(f"{name}:cache:{info().currsize}".encode())
+                    except Exception:  # noqa: BLE001
+                        pass
+                if not isinstance(v, (dict, list, set)):
+                    continue
+            if isinstance(v, skip_types):
+                continue
+            if isinstance(v, (dict, list, set)):
                 n += 1
                 h.update(name.encode())
                 h.update(repr(sorted(v.items(), key=repr) if isinstance(v, dict) else sorted(v, key=repr)
                               if isinstance(v, set) else v).encode())
+            else:
+                r = repr(v)
+                if " at 0x" in r:
+                    continue
+                n += 1
+                h.update(name.encode())
+                h.update(r.encode())
     return h.hexdigest(), n
 
 
